@@ -54,6 +54,7 @@ inline OV o_unit(std::size_t n, std::size_t k, double a){ OV r(n, 0.0); if(k < n
 inline double f_abs(double x){ return x < 0 ? -x : x; }
 inline double f_sqr(double x){ return x*x; }
 inline double f_neg(double x){ return -x; }
+inline double f_inv(double x){ return 1.0/x; }
 inline double f_mul(double x, double y){ return x*y; }
 inline double f_div(double x, double y){ return x/y; }
 inline double f_min(double x, double y){ return y < x ? y : x; }
